@@ -5,7 +5,7 @@ cd "$(dirname "$0")"
 export GOFLAGS=-mod=mod GOPROXY=off GOSUMDB=off GOTOOLCHAIN=local
 cp /repo/go.sum go.sum
 mkdir -p .build evidence replays
-for p in e1 e2; do
+for p in e1 e2 e3; do
   go1.26.8 test -c -tags verif -vet=off -o .build/$p.test ./$p
 done
 echo setup ok
